@@ -45,7 +45,7 @@ def record_problems(res, x, direct, gen, t_by_elem, method, n):
                             % (est.shape, fs.shape, val.shape)))
         fin = np.isfinite(val).ravel()
         e = est.ravel()
-        if np.any(fin & ~(np.isfinite(e) & (e >= 0))):
+        if np.any(fin & ~fw.nonneg_real(e)):
             out.append(('estimate-sign', 'error_estimate %r for finite result %r' % (est.tolist(), val.tolist())))
         if n > 0 and res.get('lib_steps'):
             steps = [np.abs(np.asarray(s, dtype=float)) * np.ones(np.shape(x)) for s in res['lib_steps']]
